@@ -30,6 +30,7 @@ void deny_reached(const char *name) {
   if (g_reached_mask[idx] & (g_reached_mask[idx] - 1))
     violation(nullptr, "race-libc-static", t, cur_op(t), vfmt("library code calls %s(), which POSIX documents as MT-Unsafe, from more than one thread", name));
 }
+extern "C" void deny_reached_c(const char *name) { deny_reached(name); }
 static void nondet(const char *name) { ev(vfmt("nondeterminism-source %s stubbed", name)); }
 
 extern "C" {
